@@ -92,6 +92,11 @@ Features == {
   F("alloc_post_mappings", 34, 39), F("reshape_consumer_type_required", 38, 39), F("reshape_mappings", 34, 39),
   F("usages_grouped_by_type", 38, 39), F("cache_headers_write_with_body", 15, 39),
   F("cache_headers_absent_on_write_with_body", 0, 14), F("ac_group_policy", 25, 39),
+  F("ac_resourceless_group", 36, 39),
+  \* "refused" features: the probe is answered 400 wherever the route exists (1.10-)
+  F("ac_orphan_required_refused", 10, 39), F("ac_orphan_forbidden_refused", 10, 39),
+  F("ac_orphan_member_of_refused", 10, 39), F("ac_orphan_forbidden_agg_refused", 10, 39),
+  F("ac_orphan_in_tree_refused", 10, 39),
   F("rp_list_repeated_member_of", 24, 39),
   F("ac_granular", 25, 39),
   F("inv_reserved_equals_total", 26, 39),
